@@ -698,7 +698,7 @@ impl PropImpl for C16 {
         vec!["the 'programs' quantifier is covered by a fixed, shape-complete matrix of compiled structs plus all shipped structs (a proc-macro needs a compile per definition)".into()]
     }
     fn budget(&self, tier: Tier) -> Budget {
-        Budget { cases_per_lane: if tier == Tier::Quick { 2000 } else { 60_000 }, tape_max: 500, cpu_s: 10 }
+        Budget { cases_per_lane: if tier == Tier::Quick { 10000 } else { 60_000 }, tape_max: 500, cpu_s: 10 }
     }
     fn spaces(&self, _tier: Tier) -> Vec<Space> {
         vec![]
